@@ -107,6 +107,28 @@ fn main() {
             });
             println!("deserializing an empty sequence with size_hint usize::MAX panicked: {}", r.is_err());
         }
+        "d10" => {
+            // C10: the predicate of retain_mut panics after it has rejected an element; the panic is caught;
+            // then only fault-free operations follow
+            use std::panic::AssertUnwindSafe;
+            let mut q: PriorityQueue<u32, u32> = PriorityQueue::new();
+            for i in 0..4u32 { q.push(i, i); }
+            std::panic::set_hook(Box::new(|i| { eprintln!("{}", i.to_string().replace('\n', " ")); }));
+            let mut n = 0;
+            let r = catch_unwind(AssertUnwindSafe(|| q.retain_mut(|_, _| { n += 1; if n == 3 { panic!("user predicate") } false })));
+            println!("retain_mut panicked: {}; len() = {}", r.is_err(), q.len());
+            // continuation: script of fault-free operations (each one guarded, a safe panic is reported and the script goes on)
+            let script = std::env::args().nth(2).unwrap_or("+101 +102 +3 - +3 +0".into());
+            for op in script.split_whitespace() {
+                let r = catch_unwind(AssertUnwindSafe(|| {
+                    if let Some(x) = op.strip_prefix('+') { let x: u32 = x.parse().unwrap(); format!("push({}, {}) -> {:?}", x, x, q.push(x, x)) }
+                    else if let Some(x) = op.strip_prefix('c') { let x: u32 = x.parse().unwrap(); format!("change_priority({}, 0) -> {:?}", x, q.change_priority(&x, 0)) }
+                    else if let Some(x) = op.strip_prefix('r') { let x: u32 = x.parse().unwrap(); format!("remove({}) -> {:?}", x, q.remove(&x)) }
+                    else { format!("pop() -> {:?}", q.pop()) } }));
+                match r { Ok(s) => println!("{}", s), Err(_) => println!("{}: safe panic (caught)", op) }
+            }
+            println!("script finished without an undefined access");
+        }
         _ => {}
     }
 }
